@@ -353,7 +353,8 @@ func genTo(mids []string) (interface{}, bool) {
 	case r == 8:
 		return []interface{}{pickS(all), pickS(all)}, true // possibly repeated
 	case r == 9:
-		return []interface{}{pickS(all), "nobody", float64(7), nil, pickS(all)}, true
+		// (members that are not ids at all: numbers, null, objects, lists)
+		return []interface{}{pickS(all), "nobody", float64(7), nil, map[string]interface{}{"mid": pickS(all)}, []interface{}{pickS(all)}, pickS(all)}, true
 	case r == 10:
 		return []interface{}{}, true
 	case r == 11:
